@@ -93,6 +93,15 @@ func (m *Machine) binop(fr *frame, op token.Token, a, b Value, pos token.Pos) Va
 		if !ok {
 			break
 		}
+		if sym.HasNaN(x.E) || sym.HasNaN(y.E) {
+			// IEEE: every ordered comparison with NaN is false, != is true
+			switch op {
+			case token.EQL, token.LSS, token.LEQ, token.GTR, token.GEQ:
+				return BoolC(false)
+			case token.NEQ:
+				return BoolC(true)
+			}
+		}
 		switch op {
 		case token.ADD:
 			return FloatV{sym.Add(x.E, y.E)}
@@ -305,8 +314,17 @@ func (m *Machine) sliceOp(fr *frame, x *ssa.Slice) Value {
 		}
 		hi = v
 	}
+	mx := cp
 	if x.Max != nil {
-		panic(Unsupported{"3-index slice"})
+		mv := m.get(fr, x.Max).(IntV)
+		v, ok := m.Concretize(mv, 0, cp)
+		if !ok {
+			m.progPanic(fr, x.Pos(), "slice bounds out of range [::%s] with capacity %d", mv.P.String(), cp)
+		}
+		mx = v
+		if hi > mx {
+			m.progPanic(fr, x.Pos(), "slice bounds out of range [:%d:%d]", hi, mx)
+		}
 	}
 	if lo > hi {
 		m.progPanic(fr, x.Pos(), "slice bounds out of range [%d:%d]", lo, hi)
@@ -317,7 +335,7 @@ func (m *Machine) sliceOp(fr *frame, x *ssa.Slice) Value {
 		}
 		m.progPanic(fr, x.Pos(), "slice bounds out of range [%d:%d] with capacity 0", lo, hi)
 	}
-	return SliceV{Arr: arr, Off: off + lo, Len: hi - lo, Cap: cp - lo}
+	return SliceV{Arr: arr, Off: off + lo, Len: hi - lo, Cap: mx - lo}
 }
 
 func (m *Machine) convert(fr *frame, x *ssa.Convert) Value {
@@ -541,6 +559,22 @@ func (m *Machine) builtin(fr *frame, b *ssa.Builtin, args []Value, call *ssa.Cal
 		return IntC(int64(n))
 	case "print", "println":
 		return nil
+	case "clear":
+		if sl, ok := args[0].(SliceV); ok {
+			for i := 0; i < sl.Len; i++ {
+				c := sl.Arr.Elems[sl.Off+i]
+				if m.OnStore != nil {
+					m.OnStore(c, call.Pos(), fr.fn)
+				}
+				storeCell(c, m.Zero(c.T))
+			}
+			return nil
+		}
+		if mv, ok := args[0].(MapV); ok {
+			mv.M.Keys, mv.M.Vals = nil, map[string]Value{}
+			return nil
+		}
+		return nil
 	case "min", "max":
 		acc := args[0]
 		for _, a := range args[1:] {
@@ -650,6 +684,111 @@ func (m *Machine) builtinExternal(fn *ssa.Function, args []Value) (Value, bool) 
 				return FloatV{sym.FnE("math_"+fn.Name(), es...)}, true
 			}
 		}
+	}
+	return nil, false
+}
+
+// stdSummary models the in-place helpers of package slices exactly as documented (their bodies use unsafe
+// overlap checks that are not interpreted): Insert and Delete write into the argument's backing array when
+// capacity allows, which is precisely what an aliasing analysis must see.
+func (m *Machine) stdSummary(fn *ssa.Function, args []Value) (Value, bool) {
+	if fn.Pkg == nil && fn.Origin() == nil {
+		return nil, false
+	}
+	pk := fn.Pkg
+	if pk == nil && fn.Origin() != nil {
+		pk = fn.Origin().Pkg
+	}
+	if pk == nil || pk.Pkg.Path() != "slices" {
+		return nil, false
+	}
+	name := fn.Name()
+	if i := strings.Index(name, "["); i >= 0 {
+		name = name[:i]
+	}
+	store := func(c *Cell, v Value) {
+		if m.OnStore != nil {
+			m.OnStore(c, fn.Pos(), fn)
+		}
+		storeCell(c, v)
+	}
+	switch name {
+	case "Insert":
+		s, ok := args[0].(SliceV)
+		if !ok {
+			s = SliceV{}
+		}
+		iv, ok := args[1].(IntV)
+		if !ok {
+			return nil, false
+		}
+		i, okc := m.Concretize(iv, 0, s.Len)
+		if !okc {
+			panic(ProgPanic{Msg: "slices.Insert: index out of range", Pos: fn.Pos(), Fn: fn.String()})
+		}
+		var vs []Value
+		if v, ok := args[2].(SliceV); ok {
+			vs = SliceElems(v)
+		}
+		if len(vs) == 0 {
+			return s, true
+		}
+		old := SliceElems(s)
+		n := len(old) + len(vs)
+		if s.Arr != nil && n <= s.Cap {
+			all := append(append(append([]Value{}, old[:i]...), vs...), old[i:]...)
+			for k := i; k < n; k++ {
+				store(s.Arr.Elems[s.Off+k], all[k])
+			}
+			return SliceV{Arr: s.Arr, Off: s.Off, Len: n, Cap: s.Cap}, true
+		}
+		all := append(append(append([]Value{}, old[:i]...), vs...), old[i:]...)
+		et := fn.Signature.Results().At(0).Type().Underlying().(*types.Slice).Elem()
+		return m.SliceOf(et, all, "slices.Insert"), true
+	case "Delete":
+		s, ok := args[0].(SliceV)
+		if !ok {
+			return SliceV{}, true
+		}
+		iv, ok1 := args[1].(IntV)
+		jv, ok2 := args[2].(IntV)
+		if !ok1 || !ok2 {
+			return nil, false
+		}
+		i, oki := m.Concretize(iv, 0, s.Len)
+		j, okj := m.Concretize(jv, 0, s.Len)
+		if !oki || !okj || i > j {
+			panic(ProgPanic{Msg: "slices.Delete: bounds out of range", Pos: fn.Pos(), Fn: fn.String()})
+		}
+		if i == j {
+			return s, true
+		}
+		old := SliceElems(s)
+		rest := append(append([]Value{}, old[:i]...), old[j:]...)
+		for k := i; k < len(rest); k++ {
+			store(s.Arr.Elems[s.Off+k], rest[k])
+		}
+		for k := len(rest); k < s.Len; k++ {
+			store(s.Arr.Elems[s.Off+k], m.Zero(s.Arr.Elems[s.Off+k].T))
+		}
+		return SliceV{Arr: s.Arr, Off: s.Off, Len: len(rest), Cap: s.Cap}, true
+	case "Clone":
+		s, ok := args[0].(SliceV)
+		if !ok || s.Arr == nil {
+			return SliceV{}, true
+		}
+		et := s.Arr.T.(*types.Array).Elem()
+		return m.SliceOf(et, SliceElems(s), "slices.Clone"), true
+	case "Reverse":
+		s, ok := args[0].(SliceV)
+		if !ok {
+			return nil, true
+		}
+		old := SliceElems(s)
+		for k := range old {
+			store(s.Arr.Elems[s.Off+k], old[len(old)-1-k])
+		}
+		return nil, true
 	}
 	return nil, false
 }
